@@ -160,7 +160,9 @@ func (a *Acc) TolVar() float64 {
 	v := F(a.Var())
 	ms := F(a.MeanSq())
 	n := float64(a.N + 4)
-	return tolC*n*math.Sqrt(n)*Eps*math.Sqrt(v*(v+ms)) + 4*n*Eps*Eps*ms + math.SmallestNonzeroFloat64
+	// sqrt(v)*sqrt(v+ms), not sqrt(v*(v+ms)): the product under- or overflows for
+	// data scaled towards the ends of the double range
+	return tolC*n*math.Sqrt(n)*Eps*math.Sqrt(v)*math.Sqrt(v+ms) + 4*n*Eps*Eps*ms + math.SmallestNonzeroFloat64
 }
 
 // TolStd bounds the absolute error of the standard deviation.
